@@ -755,16 +755,22 @@ func runC02(seed int64, tier string, out string) {
 	c.w = &shardWriter{dir: out, prop: "C02", max: 150, meta: meta,
 		header: "From Coq Require Import NArith List.\nRequire Import Csvq.Model.Base Csvq.Model.Csv Csvq.Model.Ltsv Csvq.Harness.H02.\nOpen Scope list_scope.\nOpen Scope N_scope.\n",
 		footer: func(ls []string) string {
-			name := func(n string) string {
+			// lists a shard does not contain are defined empty, so that every shard has the same interface
+			var b strings.Builder
+			for _, n := range []string{"wcases:wcase", "rcases:rcase", "lwcases:lwcase", "lrcases:lrcase", "ecases:ecase"} {
+				found := false
 				for _, l := range ls {
-					if strings.HasPrefix(l, n+":") {
-						return n
+					if l == n {
+						found = true
 					}
 				}
-				return "[]"
+				if !found {
+					t := strings.SplitN(n, ":", 2)
+					b.WriteString(fmt.Sprintf("Definition %s : list %s := [].\n", t[0], t[1]))
+				}
 			}
-			return fmt.Sprintf("Definition M := Eval vm_compute in (check_w %s ++ check_r %s ++ check_lw %s ++ check_lr %s ++ check_e %s).\nPrint M.\n",
-				name("wcases"), name("rcases"), name("lwcases"), name("lrcases"), name("ecases"))
+			b.WriteString("Definition M := Eval vm_compute in (check_w wcases ++ check_r rcases ++ check_lw lwcases ++ check_lr lrcases ++ check_e ecases).\nPrint M.\n")
+			return b.String()
 		}}
 
 	nW, nWTag, nR, nLW, nLWTag, nLR := 420, 160, 600, 180, 90, 260
